@@ -6,7 +6,7 @@ import "unicode/utf8"
 
 // Append a quoted form of the string s to the given buffer, and return it.
 //
-// Handles escaping of \, ", and $, as well as standard escape sequences and
+// Handles escaping of \, ", $ and `, as well as standard escape sequences and
 // octal characters.
 func appendShellSafeQuote(buf []byte, s string) []byte {
 	buf = append(buf, '"')
@@ -30,6 +30,8 @@ func appendShellSafeQuote(buf []byte, s string) []byte {
 				buf = append(buf, `\"`...)
 			case '$':
 				buf = append(buf, `\$`...)
+			case '`':
+				buf = append(buf, "\\`"...)
 			default:
 				buf = append(buf, byte(r))
 			}
